@@ -688,15 +688,23 @@ new_h!(procfs_new_all_fail, {
     kani::cover!(true, "reached");
 });
 
-new_h!(procfs_global_handle_init_fault, {
+/// `ProcfsHandle::new` fails (its own behaviour under faults: procfs_new_all_fail)
+pub(crate) fn k_procfs_new_fails() -> Result<ProcfsHandle, Error> {
+    Err(any_error())
+}
+
+#[kani::proof]
+#[kani::unwind(8)]
+#[kani::stub(crate::procfs::ProcfsHandle::new, k_procfs_new_fails)]
+#[kani::stub(alloc::fmt::format, k_format)]
+fn procfs_global_handle_init_fault() {
     install_close_model();
     reset(3);
-    kmut().all_fail = true;
     // first use of the process-wide handle while no descriptor can be opened
     let h: &ProcfsHandle = &GLOBAL_PROCFS_HANDLE;
     let _ = h.is_subset;
     kani::cover!(true, "reached");
-});
+}
 
 
 // ---------------------------------------------------------------------------
